@@ -918,17 +918,33 @@ package frugal
 //@   locals sub, err, i
 //@   modifies *
 //@   loop 0 invariant n == n0 && n.isSubscribed && n.quitC != nil && !cclosed(n.quitC)
+// Unsubscribe tells this subscription's workers to stop: NATS after the broker accepted the unsubscribe,
+// STOMP before asking the broker (so that it holds whatever the broker answers).
 //@ func lib.fNatsSubscriberTransport.Unsubscribe(n)
 //@   locals err
 //@   check-close
+//@   ensures ncalls("nats.go.Subscription.Unsubscribe") == 1 && result == nil ==> inorder("call:nats.go.Subscription.Unsubscribe", "close:lib.fNatsSubscriberTransport.quitC")
 //@   modifies *
+// The STOMP subscriber listens on the destination the publisher sends to: /topic/ (or /queue/) + prefix +
+// "frugal." + topic.
 //@ func lib.fStompSubscriberTransport.Subscribe(m, topic, callback)
 //@   locals destination, sub, err
+//@   ensures ncalls("stomp.Conn.Subscribe") <= 1
+//@   ensures ncalls("stomp.Conn.Subscribe") == 1 && !m.useQueue ==> callarg("stomp.Conn.Subscribe", 0, 1) == "/topic/" + m.topicPrefix + "frugal." + topic
+//@   ensures ncalls("stomp.Conn.Subscribe") == 1 && m.useQueue ==> callarg("stomp.Conn.Subscribe", 0, 1) == "/queue/" + m.topicPrefix + "frugal." + topic
 //@   modifies *
 //@ func lib.fStompSubscriberTransport.Unsubscribe(m)
 //@   locals err
 //@   check-close
+//@   ensures ncalls("stomp.Subscription.Unsubscribe") == 1 ==> inorder("close:lib.fStompSubscriberTransport.stopC", "call:stomp.Subscription.Unsubscribe")
 //@   modifies *
+// A subscriber transport made without a worker count processes its messages with one worker (in order).
+//@ func lib.NewNatsFSubscriberTransport(conn)
+//@   ensures cast(result, "lib.fNatsSubscriberTransport").workerCount == 1
+//@   modifies alloc
+//@ func lib.NewNatsFSubscriberTransportWithQueue(conn, queue)
+//@   ensures cast(result, "lib.fNatsSubscriberTransport").workerCount == 1
+//@   modifies alloc
 
 // Publisher and subscriber derive the NATS subject from the topic in the same way.
 //@ func lib.fNatsPublisherTransport.formattedSubject(n, subject)
